@@ -114,8 +114,8 @@ Proof. exact C17_inside_component_boundary_proof. Qed.
 Print Assumptions C17_inside_component_boundary.
 
 Example C17_string_prefix_not_enough :
-  let d := comps (Bs "/x/dae") in
-  let f := comps (Bs "/x/dae.d/a.dae") in
+  let d := C17_sample_dir in               (* /x/dae *)
+  let f := C17_sample_sibling_file in      (* /x/dae.d/a.dae *)
   firstn (length (render d)) (render (dir_of f)) = render d /\ inside d f = false.
 Proof. exact C17_string_prefix_not_enough_proof. Qed.
 
